@@ -127,9 +127,17 @@ func worker(id, tier string, shard, n int, out string) int {
 				continue
 			}
 			if time.Since(since) > hang {
-				// The main goroutine is stuck inside one case. Record it
-				// (the recorder is quiescent because the worker is stuck).
-				r.Fail("hang", "no progress for %v inside one case (non-termination or pathological slowness)", hang)
+				// The main goroutine is stuck inside one case. Decide from its
+				// stack whether it is stuck in the library (a violation: non-
+				// termination) or in the harness' own reference code (never a
+				// violation: the run is reported as incomplete).
+				buf := make([]byte, 1<<20)
+				buf = buf[:runtime.Stack(buf, true)]
+				if where := stuckIn(string(buf)); where == "library" {
+					r.Fail("hang", "no progress for %v inside one case; the innermost non-runtime frame is library code (non-termination or pathological slowness)", hang)
+				} else {
+					r.Incomplete = append(r.Incomplete, fmt.Sprintf("harness reference computation exceeded %v on one case (stuck in %s); no verdict for the rest of this shard", hang, where))
+				}
 				write()
 				os.Exit(3)
 			}
@@ -140,6 +148,29 @@ func worker(id, tier string, shard, n int, out string) int {
 	close(done)
 	write()
 	return 0
+}
+
+// stuckIn inspects an all-goroutine stack dump and reports whether the
+// goroutine that runs the property (the one with verif/props frames) has
+// library code or harness code as its innermost non-runtime frame.
+func stuckIn(dump string) string {
+	for _, g := range strings.Split(dump, "\n\n") {
+		if !strings.Contains(g, "verif/props.") {
+			continue
+		}
+		for _, l := range strings.Split(g, "\n") {
+			if strings.HasPrefix(l, "\t") || strings.HasPrefix(l, "goroutine ") {
+				continue
+			}
+			switch {
+			case strings.HasPrefix(l, "github.com/aclements/go-moremath/"):
+				return "library"
+			case strings.HasPrefix(l, "verif/"):
+				return "harness (" + l + ")"
+			}
+		}
+	}
+	return "unknown"
 }
 
 // ---------------------------------------------------------------------------
